@@ -34,18 +34,18 @@ BUDGET_S = {"quick": 300, "thorough": 1800}
 MIN_EVALS = {"quick": 3000, "thorough": 20000}
 PORT = 6053
 
-LITERAL = ("v4", "v6", "v6scope")
+LITERAL = ("v4", "v6", "v6scope", "v6scope-same-text")   # last: the same link-local text for every host, only the numeric scope differs
 NAMES = ("bare", "local", "local.", "sub.local", "sub.local.")   # (a name below a sub-domain of .local is a .local name too)
 FQDN = ("fqdn", "fqdn.", "fqdn-local-inside")
 UNEXPRESSIBLE = ("bare-64-byte-label", "local-control-char")   # bare / .local names that mDNS cannot express: the lookup fails before any request -> OS resolver
-MDNS_FOUND = ("v4", "v6", "both", "multi", "incomplete-both")   # incomplete: addresses received but no SRV/TXT within the timeout (request reports False)
+MDNS_FOUND = ("v4", "v6", "both", "multi", "incomplete-both", "same-text-two-scopes")   # incomplete: addresses received but no SRV/TXT within the timeout (request reports False)
 MDNS_NOTHING = ("none", "raise")
 OS_KINDS = ("v4", "v6", "both", "empty", "gaierror", "unknown-family", "v6-scoped", "v6-flow")
 PROVISIONS = ("no-manager", "empty-manager", "supplied-async", "supplied-sync", "library-precreated", "empty-manager+create-fault")
 
 
 def host_str(form: str, i: int) -> str:
-    return {"v4": f"10.{i}.9.9", "v6": f"fd00:{i}::99", "v6scope": f"fe80::{i}:99%{i + 2}", "bare": f"dev{i}", "local": f"dev{i}.local",
+    return {"v4": f"10.{i}.9.9", "v6": f"fd00:{i}::99", "v6scope": f"fe80::{i}:99%{i + 2}", "v6scope-same-text": f"fe80::1c2d:3eff:fe4f:5a6b%{i + 2}", "bare": f"dev{i}", "local": f"dev{i}.local",
             "local.": f"dev{i}.local.", "sub.local": f"dev{i}.iot.local", "sub.local.": f"dev{i}.corp.lan.local.",
             "fqdn-local-inside": f"dev{i}.local.example.com", "bare-64-byte-label": f"dev{i}" + "x" * 60, "local-control-char": f"dev{i}\x07.local", "fqdn": f"dev{i}.example.com", "fqdn.": f"dev{i}.example.com."}[form]
 
@@ -59,6 +59,9 @@ def mdns_answer(kind: str, i: int) -> Any:
         return {"v4": [f"10.{i}.0.1"], "v6": [f"fd00:{i}::1"]}
     if kind == "multi":
         return {"v4": [f"10.{i}.0.1", f"10.{i}.0.2"], "v6": [f"fd00:{i}::1", f"fe80::{i}:2%{i + 4}"]}
+    if kind == "same-text-two-scopes":
+        # one MAC-derived link-local address announced on two interfaces: same text, two zones - two different destinations
+        return {"v4": [f"10.{i}.0.1"], "v6": [f"fe80::{i}:2%4", f"fe80::{i}:2%5"]}
     if kind == "incomplete-both":
         return {"v4": [f"10.{i}.0.1"], "v6": [f"fd00:{i}::1"], "incomplete": True}
     if kind == "none":
@@ -319,11 +322,10 @@ def judge(case: dict[str, Any], o: dict[str, Any]) -> list[tuple[str, str]]:
                 m = match_blocks(got, ref["blocks"])
                 if m:
                     out.append((f"C20/{m.split(':')[0]}", m))
-                flat = {x[1]: x for gs in ref["blocks"] for g in gs for x in g}
+                flat = {tuple(x[1:]) for gs in ref["blocks"] for g in gs for x in g}     # (text, port[, flowinfo, scope]): the same text under two scopes are two addresses
                 for addr, _ in o["tcp"]:
-                    exp = flat.get(str(ipaddress.ip_address(addr[0])))
-                    if exp is None or addr[1] != PORT or (len(addr) == 4 and (addr[2], addr[3]) != (exp[3], exp[4])):
-                        out.append(("C20/tcp-attempt-to-unexpected-address", f"TCP attempt to {addr}; expected one of {sorted(flat.values())}"))
+                    if (str(ipaddress.ip_address(addr[0])), *addr[1:]) not in flat:
+                        out.append(("C20/tcp-attempt-to-unexpected-address", f"TCP attempt to {addr}; expected one of {sorted(flat, key=repr)}"))
                         break
                 if not o["tcp"]:
                     out.append(("C20/no-tcp-attempt", "addresses resolved but no TCP attempt was made"))
